@@ -593,3 +593,26 @@ func nodeIdExactMatch(c *Ctx, rule string) {
 		r.OK(rule, "LoadByNodeId implementations", "", "none in the module")
 	}
 }
+
+
+// returnSites lists every return of fn, following "return helper(...)" (the whole
+// result tuple is the helper's) into the helpers fn was split into.
+func returnSites(fn *ssa.Function) []core.DeepSite {
+	var out []core.DeepSite
+	var collect func(f *ssa.Function, chain []ssa.CallInstruction, depth int)
+	collect = func(f *ssa.Function, chain []ssa.CallInstruction, depth int) {
+		for _, ret := range core.Returns(f) {
+			if len(ret.Results) > 0 && depth < core.InterDepth {
+				if call, idx := core.CallResult(core.Strip(ret.Results[0])); call != nil && idx == 0 {
+					if h := core.ModuleCallee(call.Common()); h != nil && h != f && splitFuncs(f, nil)[h] && h.Signature.Results().Len() == len(ret.Results) {
+						collect(h, append(append([]ssa.CallInstruction{}, chain...), call), depth+1)
+						continue
+					}
+				}
+			}
+			out = append(out, core.DeepSite{Instr: ret, Fn: f, Chain: chain})
+		}
+	}
+	collect(fn, nil, 0)
+	return out
+}
